@@ -355,19 +355,61 @@ theorem userStripGo_eq_userSplit (es : List (Bytes × Bytes)) (recip : Bytes) :
   unfold userSplit
   simp
 
-theorem stripvdom_eq_named (t : Tables) (recip : Bytes) :
-    stripvdom t recip = namedRecipient t.locals t.vdoms recip := by
-  unfold stripvdom namedRecipient
+/-- the function without the whole-recipient lookup computes rules 1, 3 and 4 only -/
+theorem stripvdomW_false (t : Tables) (recip : Bytes) :
+    stripvdomW false t recip = match domainPart recip with
+      | none => recip
+      | some d => if isLocal t.locals d then recip else prefixUndone t.vdoms recip d := by
+  unfold stripvdomW prefixUndone
   rw [domainOf_eq_domainPart]
   cases domainPart recip with
   | none => rfl
   | some d =>
-    simp only [firstHit_eq_governing, cmMember_eq_isLocal, userStripGo_eq_userSplit]
+    simp only [firstHit_eq_governing, cmMember_eq_isLocal, userStripGo_eq_userSplit, Bool.false_and,
+      Bool.false_eq_true, if_false]
     split
     · rfl
     · cases userSplit t.vdoms recip with
       | some r => rfl
       | none => cases governing t.vdoms d <;> rfl
+
+/-- the function with the whole-recipient lookup (notes/C14-fix-3.diff) computes the documented rule -/
+theorem stripvdomW_true (t : Tables) (recip : Bytes) :
+    stripvdomW true t recip = namedRecipient t.locals t.vdoms recip := by
+  unfold stripvdomW namedRecipient prefixUndone hasException
+  rw [domainOf_eq_domainPart]
+  cases domainPart recip with
+  | none => rfl
+  | some d =>
+    simp only [firstHit_eq_governing, cmMember_eq_isLocal, userStripGo_eq_userSplit, Bool.true_and,
+      ← entryFor_eq_cmLookup]
+    split
+    · rfl
+    · split
+      · rfl
+      · cases userSplit t.vdoms recip with
+        | some r => rfl
+        | none => cases governing t.vdoms d <;> rfl
+
+/-- **where code and documented rule can differ**: the source has the whole-recipient lookup
+(`w = true`), or this recipient has no exception entry (`recipient:` with an empty prepend) of its own -/
+def faithful (w : Bool) (es : List (Bytes × Bytes)) (recip : Bytes) : Bool := w || !hasException es recip
+
+theorem stripvdomW_eq_named (w : Bool) (t : Tables) (recip : Bytes) (h : faithful w t.vdoms recip = true) :
+    stripvdomW w t recip = namedRecipient t.locals t.vdoms recip := by
+  cases w with
+  | true => exact stripvdomW_true t recip
+  | false =>
+    rw [stripvdomW_false]
+    have hx : hasException t.vdoms recip = false := by simpa [faithful] using h
+    unfold namedRecipient
+    cases domainPart recip with
+    | none => rfl
+    | some d => simp [hx]
+
+theorem stripvdom_eq_named (t : Tables) (recip : Bytes) (h : faithful Gen.stripWholeFirst t.vdoms recip = true) :
+    stripvdom t recip = namedRecipient t.locals t.vdoms recip :=
+  stripvdomW_eq_named _ t recip h
 
 /-! ### the literal in-place loop equals the forward pass -/
 
@@ -645,14 +687,15 @@ theorem recipLine_prefix_paraCore (es : Tables) (recip report : Bytes) :
     · exact ⟨_, rfl⟩
     · exact ⟨squashAll true (chomp1 report) ++ [LF], by simp⟩
 
-theorem namedInOrder_cores (es : Tables) (fails : List (Bytes × Bytes)) :
+theorem namedInOrder_cores (es : Tables) (fails : List (Bytes × Bytes))
+    (h : ∀ f ∈ fails, faithful Gen.stripWholeFirst es.vdoms f.1 = true) :
     NamedInOrder es.locals es.vdoms fails (fails.map (fun f => paraCore es f.1 f.2)) := by
   induction fails with
   | nil => simp [NamedInOrder]
   | cons f fs ih =>
     simp only [List.map_cons, NamedInOrder]
-    refine ⟨?_, ih⟩
-    rw [← stripvdom_eq_named]
+    refine ⟨?_, ih (fun g hg => h g (List.mem_cons_of_mem _ hg))⟩
+    rw [← stripvdom_eq_named es f.1 (h f (List.mem_cons_self ..))]
     exact recipLine_prefix_paraCore es f.1 f.2
 
 theorem paragraphs_bounceFile (es : Tables) (fails : List (Bytes × Bytes)) :
@@ -665,5 +708,58 @@ theorem domainOf_append (x a d : Bytes) (h : domainOf a = some d) : domainOf (x 
   induction x with
   | nil => simpa using h
   | cons c t ih => simp [domainOf, ih]
+
+/-! ### control_readline = the documented first line -/
+
+theorem dropWhile_congr_mem {p q : Byte → Bool} (l : Bytes) (h : ∀ c ∈ l, p c = q c) :
+    l.dropWhile p = l.dropWhile q := by
+  induction l with
+  | nil => rfl
+  | cons c t ih =>
+    have hc := h c (List.mem_cons_self ..)
+    have ht := ih (fun x hx => h x (List.mem_cons_of_mem _ hx))
+    simp only [List.dropWhile_cons, hc, ht]
+
+theorem firstLine_eq (f : Bytes) :
+    firstLine f = f.takeWhile (· != LF) ++ (if LF ∈ f then [LF] else []) := by
+  induction f with
+  | nil => simp [firstLine]
+  | cons c r ih =>
+    by_cases hc : c = LF
+    · simp [firstLine, hc]
+    · have : (LF = c) = False := by simp; exact fun e => hc e.symm
+      simp [firstLine, hc, ih, List.takeWhile_cons, this]
+
+theorem takeWhile_no_lf (f : Bytes) : LF ∉ f.takeWhile (· != LF) := by
+  induction f with
+  | nil => simp
+  | cons c r ih =>
+    by_cases hc : c = LF
+    · simp [List.takeWhile_cons, hc]
+    · have hne : ¬ LF = c := fun e => hc e.symm
+      simp [List.takeWhile_cons, hc, hne]
+      exact ih
+
+theorem stripTrail_snoc_lf (x : Bytes) : stripTrail (x ++ [LF]) = stripTrail x := by
+  simp [stripTrail, isTrailWs]
+
+theorem stripTrail_no_lf (x : Bytes) (h : LF ∉ x) : stripTrail x = rstripBlank x := by
+  unfold stripTrail rstripBlank
+  congr 1
+  apply dropWhile_congr_mem
+  intro c hc
+  have : c ≠ LF := fun e => h (by rw [← e]; simpa using hc)
+  have hb : (c == LF) = false := by simpa using this
+  simp [isTrailWs, hb]
+
+/-- `control_readline` on an existing file is the documented "first line, trailing blanks removed" -/
+theorem readline_eq_spec (f : Bytes) : readline f = specFirstLine f := by
+  unfold readline specFirstLine
+  rw [firstLine_eq]
+  by_cases h : LF ∈ f
+  · simp only [h, if_true, stripTrail_snoc_lf]
+    exact stripTrail_no_lf _ (takeWhile_no_lf f)
+  · simp only [h, if_false, List.append_nil]
+    exact stripTrail_no_lf _ (takeWhile_no_lf f)
 
 end Nq.Lemmas.Bounce
